@@ -43,7 +43,8 @@ int substdio_put(substdio *s, const char *b, size_t n)
   if (b == buf) {   /* the per-recipient reply for an accepted recipient: "<len>:<result>," */
     V_ASSERT(g_closed, "C07: replies are sent only after the submission was closed");
     V_ASSERT((g_result0 == 'K') == (g_close_ok != 0), "C07: QMTP sends the positive acknowledgement K if and only if qmail_close reported the message queued; a queued message is never answered with a failure");
-    if (g_result0 == 'K') ++g_kreplies;
+    if (g_result0 == 'K' && g_kreplies < 1000) ++g_kreplies;
+    V_COVER(g_result0 == 'K'); V_COVER(g_result0 == 'D' && g_nto > 1);
   }
   if (g_replies < 1000) ++g_replies;
   return 0;
